@@ -222,6 +222,10 @@ def scan(f, pos):
             # string, we need to read more data.
             s = l_ + 1
             if s > len(data) - 8:
+                if len(data) < 8096:
+                    # We are at the end of the file: no transaction
+                    # length can follow this period.
+                    return 0
                 pos += l_
                 break
             tl = u64(data[s:s + 8])
